@@ -13,7 +13,7 @@ GO = dict(module="core", pkg="internal/congestion/bbr", pkgname="bbr",
 GO_SEED = dict(module="core", pkg="internal/congestion", pkgname="congestion",
                files={"zz_verif_c12_seed_test.go": "c12/c12_seed_test.go"}, run="TestVerifC12Seed")
 PARAMS_NAME = "ParamsC12"
-HEADER = ("From Hy Require Import lib.Harness model.C12_Queue corr.C12_Corr.\n"
+HEADER = ("From Hy Require Import lib.Harness model.C12_Queue model.C12_Sender corr.C12_Corr.\n"
           "From Coq Require Import ZArith List.\nImport ListNotations.\nLocal Open Scope Z_scope.\n")
 EXTRA_TARGETS = ["corr/C12_Corr.vo"]
 PER_SHARD = 12
@@ -129,17 +129,72 @@ def gen_wf(rng, n):
     return {"k": "wf", "inst": inst, "win": win, "ops": ops}
 
 
+PROFILES = ["standard", "conservative", "aggressive"]
+
+
+def sim_case(rng, profile, kind, tier):
+    big = tier != "quick"
+    c = {"seed": rng.randrange(1, 2**31), "profile": profile, "mds": rng.choice([1200, 1252, 1280]),
+         "cap": rng.choice([625000, 1250000, 2500000]), "rtt": rng.choice([20, 40, 80, 150]),
+         "loss": 0, "burstEv": 0, "burstLen": 0, "agg": 0, "idle": [], "gap": 5, "nonrtx": 10, "mtu": [],
+         "dur": 12000, "dumpMax": 150 if not big else 250, "traceMax": 120 if not big else 200, "clean": False, "kind": kind}
+    bdp = c["cap"] * c["rtt"] // 1000
+    c["queue"] = max(20000, bdp * rng.choice([1, 2]))
+    if kind == "clean":
+        c["clean"] = True
+        c["mtu"] = [[rng.randrange(500, 6000), 1452]] if rng.random() < 0.5 else []
+        c["queue"] = max(40000, 2 * bdp)
+    elif kind == "lossy":
+        c["loss"] = rng.choice([5, 20, 50])
+        c["burstEv"], c["burstLen"] = rng.choice([(0, 0), (2500, 80), (4000, 250)])
+        c["agg"] = rng.choice([0, 5, 25])
+        c["idle"] = [[rng.randrange(3000, 5000), rng.randrange(5200, 7000)]] if rng.random() < 0.6 else []
+        c["gap"] = rng.choice([0, 20, 80])
+        c["nonrtx"] = rng.choice([0, 30])
+        c["mtu"] = sorted([[rng.randrange(300, 9000), s] for s in rng.sample([1300, 1350, 1400, 1452], rng.randrange(0, 3))])
+        c["mtu"] = [m for i, m in enumerate(c["mtu"]) if all(m[1] > x[1] for x in c["mtu"][:i])]
+        c["queue"] = max(15000, bdp // rng.choice([1, 2, 4]))
+    elif kind == "probertt":
+        # min_rtt expires after 10 s without a new minimum: a standing queue keeps samples above it
+        c["dur"] = 26000
+        c["agg"] = rng.choice([0, 10])
+        c["queue"] = max(60000, 3 * bdp)
+        c["loss"] = rng.choice([0, 2])
+        c["idle"] = [[14000, 14500]] if rng.random() < 0.5 else []
+    elif kind == "applimited":
+        c["idle"] = [[t, t + rng.randrange(50, 400)] for t in range(1000, 11000, 900)]
+        c["agg"] = rng.choice([0, 15])
+        c["loss"] = rng.choice([0, 10])
+    return {"k": "sim", "sim": c}
+
+
+def gen_seed_cases(rng, n):
+    out = []
+    for _ in range(n):
+        out.append({"q": rng.choice([0, -1, 1200, 1252, 1280, 1350, 1452, rng.randrange(1, 2000)]),
+                    "a": rng.choice([1200, 1252, 1280, rng.randrange(1, 2000)])})
+    return out
+
+
 def gen(rng, tier):
     scale = 1 if tier == "quick" else 15
     cases = []
-    for _ in range(40 * scale):
-        cases.append(gen_ring(rng, rng.choice([40, 120, 250])))
-    for _ in range(60 * scale):
-        cases.append(gen_pq(rng, rng.choice([40, 120, 250])))
+    for prof in PROFILES:
+        cases.append(sim_case(rng, prof, "clean", tier))
+        cases.append(sim_case(rng, prof, "lossy", tier))
+    cases.append(sim_case(rng, rng.choice(PROFILES), "probertt", tier))
+    cases.append(sim_case(rng, rng.choice(PROFILES), "applimited", tier))
+    if tier != "quick":
+        for _ in range(40):
+            cases.append(sim_case(rng, rng.choice(PROFILES), rng.choice(["clean", "lossy", "lossy", "probertt", "applimited"]), tier))
+    for _ in range(24 * scale):
+        cases.append(gen_ring(rng, rng.choice([40, 120, 200])))
+    for _ in range(36 * scale):
+        cases.append(gen_pq(rng, rng.choice([40, 120, 200])))
     # the real initial capacity (256): wrap-around and growth of the sampler's queue
     for _ in range(2 * scale):
-        cases.append(gen_pq(rng, 900, size=256, style="sender"))
-    for _ in range(40 * scale):
+        cases.append(gen_pq(rng, 700, size=256, style="sender"))
+    for _ in range(24 * scale):
         cases.append(gen_wf(rng, rng.choice([30, 80])))
     return cases
 
@@ -175,6 +230,11 @@ def to_coq(c, o):
         inst = {"max": 0, "min": 1, "xev": 2}[c["inst"]]
         body = ";".join("(%s,%s)" % (zl(op), zl(st)) for op, st in zip(c["ops"], steps))
         return "CWF %d%%nat %s [%s]" % (inst, z(c["win"]), body)
+    if k == "sim":
+        if "dumps" not in o:
+            return None
+        return "CSim %s %s [%s] [%s]" % ("true" if o.get("agg") else "false", z(c["sim"]["mds"]),
+                                         ";".join(zl(t) for t in o["trace"]), ";".join(zl(d) for d in o["dumps"]))
     return None
 
 
@@ -193,15 +253,26 @@ def klass(c, o):
         return "pq:" + ("grew" if len(caps) > 1 else "fixed") + ("+gaps" if gaps else "") + ("+wrap" if wrapped else "")
     if k == "wf":
         return "wf:" + c["inst"]
+    if k == "sim":
+        st = o.get("stats") or {}
+        return "sim:%s:%s:modes=%s:rec=%s" % (c["sim"]["kind"], c["sim"]["profile"], "".join(map(str, st.get("modes", []))),
+                                            "".join(map(str, st.get("recovery", []))))
     return k
 
 
 def nontrivial(c, o):
+    if c["k"] == "sim":
+        return (o.get("stats") or {}).get("cong", 0) >= 100
     return len(o.get("steps") or []) >= 10
 
 
 def fingerprint(c, o):
-    return None
+    """stable class of a failure: the verdict text with all numbers blanked (one VIOLATION line per class)"""
+    import re
+    why = o.get("why") or ""
+    if not why:
+        return None
+    return "C12:%s:%s" % (c.get("k"), re.sub(r"[-+]?[0-9][0-9.]*", "#", why)[:90])
 
 
 def search(ctx, disagreeing):
@@ -223,10 +294,16 @@ def search(ctx, disagreeing):
 
 def trim(o):
     """implementation output without the bulky per-step dumps (replays re-run the case anyway)"""
-    return {k: v for k, v in o.items() if k not in ("steps", "dump", "trace")}
+    return {k: v for k, v in o.items() if k not in ("steps", "dumps", "trace")}
 
 
-RULE = ("seeded generator. Layer 1: operation sequences on the real RingBuffer (push/pop/offset/front/back/clear; growth past capacity, "
+RULE = ("seeded generator. Layers 2-3: a discrete-event bottleneck simulator inside the Go harness (capacity, RTT, queue, random and burst "
+        "loss, ack aggregation, app-limited phases, packet-number gaps, non-ack-eliciting packets, MTU raises; three profiles; clean / "
+        "lossy / probe-rtt / app-limited scenarios) drives the real bbrSender following quic-go's call discipline; after EVERY event the "
+        "harness checks on the implementation: no panic, 4*mds <= GetCongestionWindow <= max, bandwidthForPacer >= 65536, EntrySlotsUsed "
+        "<= lastSent-leastUnacked+1, CanSend below 4*mds, pacer wake-up has budget, generated trace is quic_consistent; a sample of events "
+        "(all mode/recovery changes, losses, MTU raises + random) is dumped (fields before/after + oracle values) and recomputed by the "
+        "Coq model; the trace prefix is checked with the model's quic_consistent and replayed on the model queue. Layer 1: operation sequences on the real RingBuffer (push/pop/offset/front/back/clear; growth past capacity, "
         "wrap-around, calls on empty), packetNumberIndexedQueue (emplace with gaps, out-of-order and nil emplace, get, remove out of order, "
         "RemoveUpTo; initial sizes 0..8 and the real 256) and WindowedFilter (max/min/extraAckedEvent instances; ties, expiry, wrap of "
         "the uint64 time difference), every return value and the raw state compared with the model after every step. "
@@ -238,8 +315,21 @@ ASSUMPTIONS = [
 ]
 TRUSTED = ["modelled rather than verified: bbr/ringbuffer.go, packet_number_indexed_queue.go, windowed_filter.go and the integer window "
            "skeleton of bbr_sender.go (hand transcription in coq/model/C12_Queue.v, C12_Sender.v)"]
-LEVEL_TEXT = ""
-LEVEL_NOTE = ""
+LEVEL_TEXT = ("Machine-checked Coq theorems over a hand-written Gallina model of the BBR sender's containers and integer window skeleton. "
+              "Layer 1 (exact transcriptions of RingBuffer, packetNumberIndexedQueue, WindowedFilter): the ring refines a list queue, the "
+              "indexed queue refines a finite map for EVERY operation sequence and never panics, its slots are exactly the live packet-number "
+              "span (RemoveUpTo n leaves nothing below n), the max filter keeps its estimates ordered. Layer 2 (window clamps, recovery "
+              "window, round/recovery state, SetMaxDatagramSize rescaling with explicit int64/uint64 wraps, pacer floor, seed rule, pacer "
+              "wake-up arithmetic, the sampler's queue usage): for every event sequence and ALL values of the float-derived quantities "
+              "(oracles) 4*mds <= GetCongestionWindow <= maxCongestionWindow, bandwidthForPacer >= 65536, no panic for non-decreasing "
+              "datagram sizes, EntrySlotsUsed <= lastSent-leastUnacked+1 on every trace with increasing packet numbers, CanSend below 4*mds "
+              "and pacer wake-up has budget (deadlock half, partial). Tied to /repo on every run by regenerated constants and a per-step "
+              "differential run: structures step by step, and the real bbrSender under a bottleneck simulator with ~150 dumped events per "
+              "trace recomputed by the model. Throughput on a loss-free path: supporting evidence only (simulator), no theorem.")
+LEVEL_NOTE = ("Trusted: Coq kernel + vm_compute; hand-written model (tie = sampled differential testing + regenerated ParamsC12); python/Go glue; the "
+              "simulator's rendering of quic-go's call discipline. No axioms. Not proved: the float state machine (mode transitions, gain "
+              "cycling, bandwidth samples - universally quantified as oracles instead), convergence/throughput, quic-go's send loop; "
+              "packet-number spaces restarting at 0 (Initial/Handshake/1-RTT share one controller) are outside the stated precondition.")
 
 
 def run(ctx):
@@ -254,6 +344,21 @@ def run(ctx):
         violations.append({"what": "tie broken: Go harness for C12 did not build/run against the current tree (%s)" % golog.strip()[-400:],
                            "replay": {"broken": "go harness", "log": golog[-4000:]}, "found_input": False, "fingerprint": None})
         outs = outs if len(outs) == len(cases) else []
+    # seedPacketSize lives in another package: second harness run
+    seed_cases = gen_seed_cases(rng, 60)
+    sok, souts, _, slog = common.run_go_cases(ctx, GO_SEED, seed_cases, tag="seed")
+    if not sok:
+        ctx.say("Go seed harness failed:\n" + slog[-2000:])
+        violations.append({"what": "tie broken: Go harness for seedPacketSize did not build/run (%s)" % slog.strip()[-300:],
+                           "replay": {"broken": "go harness (seed)", "log": slog[-3000:]}, "found_input": False, "fingerprint": None})
+        souts = []
+    for c, o in zip(seed_cases, souts):
+        if o.get("ok") is False:
+            violations.append({"what": "seedPacketSize(%d,%d): %s" % (c["q"], c["a"], o.get("why")),
+                               "replay": {"case": {"k": "seed", **c}, "impl": o}, "fingerprint": None, "found_input": True})
+    seed_term = None
+    if souts:
+        seed_term = "CSeed [%s]" % ";".join("(%s,%s,%s)" % (z(c["q"]), z(c["a"]), z(o["seed"])) for c, o in zip(seed_cases, souts))
     if params is not None:
         if common.write_params(PARAMS_NAME, [tuple(p) for p in params]):
             ctx.say("Params changed -> rebuilding dependants")
@@ -268,6 +373,9 @@ def run(ctx):
             if t is not None:
                 terms.append(t)
                 idxmap.append(i)
+        if seed_term:
+            terms.append(seed_term)
+            idxmap.append(-1)
         compared = len(terms)
         t1 = time.time()
         eok, mm, err = common.eval_cases(ctx, "cases", HEADER, terms, PER_SHARD)
@@ -275,8 +383,14 @@ def run(ctx):
         if not eok:
             corr_ok, corr_err = False, err
             ctx.say("CORRESPONDENCE EVALUATION FAILED: " + err)
-        mism = [idxmap[j] for j in mm]
+        seed_mism = any(idxmap[j] == -1 for j in mm)
+        mism = [idxmap[j] for j in mm if idxmap[j] >= 0]
+        if seed_mism:
+            corr_ok, corr_err = False, "seedPacketSize model disagrees with the implementation"
     hist, nontriv = {}, set()
+    supporting = {"label": "SUPPORTING EVIDENCE ONLY - no theorem covers throughput/convergence; loss-free, never app-limited "
+                           "simulated bottleneck; ratio = bytes delivered after the first 2 s / (capacity * time)",
+                  "threshold": 0.5, "runs": []}
     for c, o in zip(cases, outs):
         k = klass(c, o)
         hist[k] = hist.get(k, 0) + 1
@@ -285,6 +399,14 @@ def run(ctx):
         if o.get("ok") is False:
             violations.append({"what": "%s: %s" % (c.get("k"), o.get("why")), "replay": {"case": c, "impl": trim(o)},
                                "fingerprint": fingerprint(c, o), "found_input": True})
+        if c["k"] == "sim" and c["sim"].get("clean") and o.get("stats"):
+            r = o["stats"]["throughputRatio"]
+            supporting["runs"].append({"profile": c["sim"]["profile"], "capacity_Bps": c["sim"]["cap"], "rtt_ms": c["sim"]["rtt"],
+                                       "duration_ms": c["sim"]["dur"], "throughput_ratio": round(r, 4)})
+            if r < 0.5 and o.get("ok") is not False:
+                violations.append({"what": "sim: regression threshold (supporting evidence, no theorem): profile %s delivers %.1f%% of the "
+                                           "bottleneck capacity on a loss-free path after %d ms" % (c["sim"]["profile"], 100 * r, c["sim"]["dur"]),
+                                   "replay": {"case": c, "impl": trim(o)}, "fingerprint": None, "found_input": True})
     impl_bad = any(v.get("found_input") for v in violations)
     broken = []
     if not proof_ok:
@@ -307,7 +429,10 @@ def run(ctx):
         ctx.say("model/implementation disagree on %d case(s) (implementation also violates the property directly)" % len(mism))
     samples = [{"case": small(c), "impl": trim(o)} for c, o in list(zip(cases, outs))[:2]]
     cov = {"evaluations": len(cases), "distinct_nontrivial": len(nontriv), "rule": RULE, "samples": samples,
-           "traces_validated_against_impl": compared, "model_impl_disagreements": len(mism), "input_classes": hist}
+           "traces_validated_against_impl": compared, "model_impl_disagreements": len(mism), "input_classes": hist,
+           "supporting_only": supporting,
+           "sim_events_checked_on_impl": sum((o.get("stats") or {}).get("events", 0) for o in outs),
+           "sim_events_recomputed_in_coq": sum(len(o.get("dumps") or []) for o in outs)}
     ctx.say("input classes: " + json.dumps(hist, sort_keys=True))
     return common.finish(ctx, pinfo, cov, violations, ASSUMPTIONS, trusted_extra=TRUSTED)
 
@@ -325,6 +450,9 @@ def replay(ctx, path):
     if not c:
         print("replay file names a broken obligation/correspondence, no concrete input:", r["what"])
         return 1
-    ok, outs, _, log = common.run_go_cases(ctx, GO, [c], tag="replay")
+    if c.get("k") == "seed":
+        ok, outs, _, log = common.run_go_cases(ctx, GO_SEED, [{"q": c["q"], "a": c["a"]}], tag="replay")
+    else:
+        ok, outs, _, log = common.run_go_cases(ctx, GO, [c], tag="replay")
     print(json.dumps([trim(o) for o in outs], indent=1))
     return 0 if outs and outs[0].get("ok") else 1
